@@ -105,6 +105,7 @@ def run(rep):
     header_validation(rep, fns)
     png_info_copies(rep, fns)
     lockstep_bounds(rep, fns)
+    bmp_pitch(rep, fns)
     from .p06 import accept_inconclusive
     accept_inconclusive(rep, "c11_inconclusive.json")
 
@@ -161,6 +162,60 @@ def scanline_buffers(rep, fns):
             rep.violation("R7-scanline-buffer", key, where, {"buffer element": E[:100], "sized as if it were": P[:100],
                           "problem": "the buffer has max(width, ceil(scanline/%d)) elements of %d byte(s): fewer bytes than the scanline libtiff writes into it (heap overflow on read_and_convert_image of a narrower pixel type into a wider one, e.g. gray8 -> rgb8)" % (sp, se)})
     rep.floor("obligations:R7", 2)
+    # R7c: what R7 takes for granted about buffer_size itself
+    rep.rule("R7c tiff reader::buffer_size<P>(width, not bit-aligned) returns, for every scanline size s, an element count n with n * sizeof(P) >= s and n >= width: the returned "
+             "expression is evaluated as written for s = 0 .. 4*sizeof(P)+3 and width 0 and 5 (the quotient must be rounded up: libtiff writes the whole scanline)")
+    seen7 = set()
+    for f in fns:
+        if not f["name"].endswith("reader::buffer_size") or fmt_of(f) != "tiff" or f.get("body") is None or len(f["params"]) != 2 or "false" not in f["params"][1]["type"]:
+            continue
+        m = re.search(r"::buffer_size<(.*)>$", f.get("full", ""))
+        e = pixel_bytes(m.group(1)) if m else None
+        if e is None or e in seen7:
+            continue
+        seen7.add(e)
+        rep.count("obligations:R7c")
+        g = R.canonize(f)
+        rets = [r for r, _ in R.find(g["body"], lambda x: x.get("k") == "Return" and x.get("e") is not None)]
+        expr = rets[0]["e"] if len(rets) == 1 else None
+        kx = R.key(expr) if expr is not None else ""
+        if re.fullmatch(r"%\d+", kx):
+            for dn, _ in R.find(g["body"], lambda x: x.get("k") == "Decl"):
+                for dd in dn["decls"]:
+                    if dd.get("name") == kx and dd.get("init") is not None:
+                        expr = dd["init"]
+        key = "R7c:tiff:reader::buffer_size:%d-byte elements" % e
+        sizes = sorted({R.key(c) for c, _ in R.find(expr, lambda x: x.get("k") == "Call" and (x.get("callee") or {}).get("name", "").endswith("get_scanline_size"))}) if expr is not None else []
+        # ... or a local that holds it (the call is not const, so the canonical form keeps the local)
+        for dn, _ in R.find(g["body"], lambda x: x.get("k") == "Decl"):
+            for dd in dn["decls"]:
+                if dd.get("init") is not None and dd.get("name") and (R.strip(dd["init"]) or {}).get("k") == "Call" and ((R.strip(dd["init"]).get("callee") or {}).get("name", "")).endswith("get_scanline_size") \
+                        and expr is not None and R.find(expr, lambda x: x.get("k") == "DeclRef" and x.get("name") == dd["name"]):
+                    sizes.append(dd["name"])
+        if expr is None or len(sizes) != 1:
+            rep.incon("R7c-buffer-size", key, {"why": "no single returned expression over get_scanline_size()", "returned": kx[:160]})
+            continue
+        bad = None
+        unknown = False
+        for width in (0, 5):
+            for sz in range(0, 4 * e + 4):
+                n = _ieval(expr, {re.sub(r"this\.|this->", "", sizes[0]): sz, "$0": width})
+                if n is None:
+                    unknown = True
+                    break
+                if n * e < sz or n < width:
+                    bad = (sz, width, n)
+                    break
+            if bad or unknown:
+                break
+        if unknown:
+            rep.incon("R7c-buffer-size", key, {"why": "the returned expression could not be evaluated", "returned": R.key(expr)[:200]})
+        elif bad:
+            rep.violation("R7c-buffer-size", key, R.fn_where(f), {"returned": R.key(expr)[:200], "witness": "scanline of %d bytes, width %d: %d elements of %d bytes = %d bytes" % (bad[0], bad[1], bad[2], e, bad[2] * e),
+                          "example": "cmyk + alpha tiff (5 samples) read with read_and_convert_image: the row buffer is 1-3 bytes short of the scanline libtiff writes into it"})
+        else:
+            rep.ok("R7c-buffer-size", key, R.key(expr)[:160])
+    rep.floor("obligations:R7c", 2)
     # R7b: the tile readers decode into a buffer of the file's pixel type
     rep.rule("R7b tiff reader::read_tiled_data_full / _subimage<Buffer, View>: the buffer the tiles are decoded into has the pixel type of Buffer (the file's "
              "pixel type chosen by the caller), like read_stripped_data -- not the destination view's, which a converting read would fill with samples of another type")
@@ -855,6 +910,33 @@ def size_arithmetic(rep, fns):
             rep.violation("R8-size-arithmetic", k, R.fn_where(f), {"product": keyx, "computed_in": t, "interval_from_leaf_types": r, "operand_intervals": ops,
                           "witness": "operands %s and %s: the product %d does not fit %s" % (ops[0][1], ops[1][1], ops[0][1] * ops[1][1], t)})
     rep.floor("obligations:R8", 12)
+    # R8b: the devices hand byte counts to the C / C++ library; a count narrowed to 32 bits on the way changes sign for 2^31 <= n < 2^32 and comes back as a huge size_t
+    rep.rule("R8b no member of file_stream_device / istream_device narrows a byte count or offset parameter from 64 to 32 bits before passing it on (fread / fwrite / read / "
+             "write / seek take size_t / streamsize / long): static_cast<int>(count) turns 2^31 + k into a negative int, fread then gets SIZE_MAX - ... and fills the buffer past its end")
+    seen8 = set()
+    for f in fns:
+        m = re.match(r"boost::gil::detail::(file_stream_device|istream_device|ostream_device)::(read|write|seek)$", f["name"])
+        if not m or f.get("body") is None:
+            continue
+        g = R.canonize(f)
+        key = "R8b:%s::%s(%s)" % (m.group(1), m.group(2), ",".join(re.sub(r"boost::gil::|std::", "", p["type"])[:24] for p in f["params"]))
+        if key in seen8:
+            continue
+        seen8.add(key)
+        rep.count("obligations:R8b")
+        bad = []
+        for x, _ in R.find(g["body"], lambda x: x.get("k") in ("ImplicitCast", "ExplicitCast") and x.get("from_c") is not None):
+            frm, to = R._cty(x["from_c"]), R._cty(x["to_c"])
+            if frm in R._WIDE and to in R._NARROW and "const" not in x and re.search(r"\$\d", R.key(x["e"])):
+                r = R.type_range(x["e"])
+                lim = R._TYRANGE[to]
+                if not (r is not None and lim[0] <= r[0] and r[1] <= lim[1]):
+                    bad.append({"narrowed": R.key(x["e"])[:80], "from": frm, "to": to, "line": x.get("line")})
+        if bad:
+            rep.violation("R8b-count-narrowed", key, R.fn_where(f), {"casts": bad, "witness": "count 2^31 + 16: static_cast<int> gives -2147483632, converted to size_t for fread 18446744071562067984: the whole rest of the file is read into a buffer of 2^31 + 16 bytes"})
+        else:
+            rep.ok("R8b-count-narrowed", key, "counts and offsets reach the library unnarrowed")
+    rep.floor("obligations:R8b", 4)
 
 
 def region_validated(rep, fns):
@@ -1139,3 +1221,133 @@ def lockstep_bounds(rep, fns):
                 rep.violation("R15-lockstep-bound", key, "%s:%s" % (rel(f), lp.get("line")), {"condition": cond[:200], "problem": "the loop steps through the index view but is bounded by the destination view only",
                               "example": "a valid 4x2 8-bit palette tiff read into a 5x3 rgb16 view: reads past the 8-byte index image"})
     rep.floor("obligations:R15", 2)
+
+
+def _ieval(n, env):
+    """integer value of a side-effect free expression over + - * / % >> << & | with the names in env (None if anything else occurs)"""
+    n = R.strip(n)
+    while isinstance(n, dict) and n.get("k") in ("Paren", "ImplicitCast", "ExplicitCast"):
+        if "const" in n:
+            return int(str(n["const"]), 0)
+        n = R.strip(n.get("e"))
+    if not isinstance(n, dict):
+        return None
+    if "const" in n:
+        return int(str(n["const"]), 0)
+    k = R.key(n)
+    k2 = re.sub(r"this\.|this->", "", k)
+    if k2 in env:
+        return env[k2]
+    if n.get("k") == "Binary" and n.get("op") in ("+", "-", "*", "/", "%", ">>", "<<", "&", "|"):
+        a, b = _ieval(n["l"], env), _ieval(n["r"], env)
+        if a is None or b is None:
+            return None
+        op = n["op"]
+        if op in ("/", "%") and b == 0:
+            return None
+        return {"+": a + b, "-": a - b, "*": a * b, "/": int(a / b) if op == "/" else 0, "%": a - b * int(a / b) if op == "%" else 0, ">>": a >> b if op == ">>" else 0,
+                "<<": a << b if op == "<<" else 0, "&": a & b, "|": a | b}[op]
+    if n.get("k") == "Unary" and n.get("op") == "~":
+        a = _ieval(n["e"], env)
+        return None if a is None else ~a
+    if n.get("k") == "Call" and (n.get("callee") or {}).get("name") in ("std::max", "std::min") and len(n.get("args", [])) == 2:
+        a, b = _ieval(n["args"][0], env), _ieval(n["args"][1], env)
+        if a is None or b is None:
+            return None
+        return max(a, b) if n["callee"]["name"] == "std::max" else min(a, b)
+    return None
+
+
+def bmp_pitch(rep, fns):
+    """R16: the bmp reader allocates one row of _pitch bytes and hands it to the decoder of the file's depth, which walks `width` pixels through it."""
+    rep.rule("R16 bmp reader::apply: for every depth that has a case in the switch, the row pitch computed before the switch is at least what that case's decoder consumes per row: "
+             "width * bytes per pixel for depths >= 8 -- bytes per pixel taken from the decoder itself (the cursor stride `src += k` of read_data_15, the size of the source "
+             "pixel of read_data<View_Src> / read_palette_image<View_Src>) -- and ceil(width * depth / 8) below 8. The pitch expressions are evaluated as written, for each depth and "
+             "for widths 1..64")
+    byid = {f["id"]: f for f in fns}
+    done = False
+    for f in fns:
+        if done or fmt_of(f) != "bmp" or "::".join(f["name"].split("::")[-2:]) != "reader::apply":
+            continue
+        g = R.canonize(f)
+        sws = [sw for sw, _ in R.find(g["body"], lambda x: x.get("k") == "Switch" and "_bits_per_pixel" in R.key(x["cond"]))]
+        if not sws:
+            continue
+        done = True
+        # the pitch as a function of (W, depth): replay the assignments to _pitch in order, under their guards on the depth
+        assigns = []
+        for a, p in R.find(g["body"], lambda x: (x.get("k") == "Assign" or (x.get("k") == "Call" and x.get("op") == "=")) and re.sub(r"this\.|this->", "", R.key(x.get("l") or x["args"][0])) == "_pitch"):
+            conds = []
+            for anc, field, idx in p:
+                if anc.get("k") == "If" and field in ("then", "else"):
+                    conds.append((anc["cond"], field == "then"))
+            assigns.append((a.get("r") if a.get("k") == "Assign" else a["args"][1], conds, a.get("line")))
+
+        def pitch(W, v):
+            env = {"_info._width": W, "_info._bits_per_pixel": v, "_pitch": 0}
+            for rhs, conds, _ in assigns:
+                ok = True
+                for c, want in conds:
+                    ck = R.strip(c)
+                    if ck.get("k") == "Binary" and ck.get("op") in ("<", "<=", ">", ">=", "==", "!="):
+                        l, r = _ieval(ck["l"], env), _ieval(ck["r"], env)
+                        if l is None or r is None:
+                            return None
+                        t = {"<": l < r, "<=": l <= r, ">": l > r, ">=": l >= r, "==": l == r, "!=": l != r}[ck["op"]]
+                    else:
+                        return None
+                    ok = ok and (t == want)
+                if ok:
+                    val = _ieval(rhs, env)
+                    if val is None:
+                        return None
+                    env["_pitch"] = val
+            return env["_pitch"]
+        for cs, pth in R.find(sws[0]["body"], lambda x: x.get("k") == "Case"):
+            if any(a.get("k") == "Switch" for a, _, _ in pth):
+                continue
+            v = int(_cval(cs["v"]))
+            rep.count("obligations:R16")
+            key = "R16:bmp:reader::apply:depth %d" % v
+            bpp_bytes = None
+            how = None
+            if v >= 8:
+                for c, _ in R.find(cs["sub"], lambda x: x.get("k") == "Call" and x.get("member_call") and re.search(r"::read_(data|data_15|palette_image)$", (x.get("callee") or {}).get("name", ""))):
+                    cal = c["callee"]
+                    nm = cal["name"].split("::")[-1]
+                    if nm == "read_data_15":
+                        h = byid.get(cal.get("id"))
+                        if h is not None:
+                            hg = R.canonize(h)
+                            for lp, _ in R.find(hg["body"], lambda x: x.get("k") == "For"):
+                                m = re.search(r"\((%\d+) \+= (\d+)\)", R.key(lp["inc"]))
+                                if m and R.find(lp["body"], lambda y: y.get("k") in ("Subscript", "Index", "Binary", "Call") and re.search(re.escape(m.group(1)) + r"\[", R.key(y))):
+                                    bpp_bytes, how = int(m.group(2)), "cursor stride of read_data_15"
+                    else:
+                        full = cal.get("full", "")
+                        i = full.find("boost::gil::pixel<")
+                        pb = pixel_bytes(full[i:]) if i >= 0 else None
+                        if pb:
+                            bpp_bytes, how = pb, "size of the source pixel of %s" % nm
+                if bpp_bytes is None:
+                    rep.incon("R16-pitch", key, {"why": "no decoder with a recognisable stride in this case"})
+                    continue
+            bad = None
+            unknown = False
+            for W in range(1, 65):
+                pv = pitch(W, v)
+                if pv is None:
+                    unknown = True
+                    break
+                need = W * bpp_bytes if v >= 8 else (W * v + 7) // 8
+                if pv < need:
+                    bad = (W, pv, need)
+                    break
+            if unknown:
+                rep.incon("R16-pitch", key, {"why": "the pitch expression could not be evaluated"})
+            elif bad:
+                rep.violation("R16-pitch", key, R.fn_where(f), {"depth": v, "bytes per pixel the decoder reads": bpp_bytes, "from": how, "witness": "width %d: pitch %d bytes, the decoder reads %d" % bad,
+                              "pitch assignments at lines": [a[2] for a in assigns]})
+            else:
+                rep.ok("R16-pitch", key, "pitch >= %s for widths 1..64" % ("width*%d (%s)" % (bpp_bytes, how) if v >= 8 else "ceil(width*%d/8)" % v))
+    rep.floor("obligations:R16", 7)
